@@ -158,6 +158,8 @@ class Clocks:
 
 def run(chk) -> None:
     repo = chk.repo
+    from ._engine import engine_view
+    chk.extra["helpers_inlined"] = engine_view(repo)
     m = repo.module(CL)
     ck = Clocks(repo)
     chk.floor("C05.R1", "concrete get_now implementations", len(ck.adapter), 1)
